@@ -71,6 +71,11 @@ TABLE = {
     "fs-evex-mask-disp": "64 62 f1 7f 49 7f 44 18 01",
     "fs-evex-mask-store": "64 62 f1 7c 49 11 0c 98",
     "gs-evex-bcast": "65 62 f1 7c 58 58 04 98",
+    # mnemonics that end in the letters of a prefix word (ss, es, cs ...) with a memory operand that starts with `(`
+    "sqrtss-mem": "f3 0f 51 00", "comiss-sib": "0f 2f 04 98", "vmovss-sib": "c5 fa 10 04 98", "vbroadcastss-mem": "c4 e2 7d 18 00", "cvtsd2ss-mem": "f2 0f 5a 03",
+    "les-mem": "c4 00", "scas": "af", "lods": "ad",
+    # MPX with an invalid bound register: two parenthesised groups in the operand column, the second one with commas
+    "bndmov-bad-sib": "66 0f 1b 24 18", "bndstx-bad-sib": "0f 1b 64 18 10", "bndmov-sib-bad": "66 0f 1a 24 18", "bndcl-bad": "f3 0f 1a 24 18",
 }
 TABLE = {k: bytes.fromhex(v) for k, v in TABLE.items()}
 
